@@ -34,6 +34,7 @@ HOOKS = ['LogSolution', 'LogWork', 'LogSDCIterations', 'LogGlobalErrorPostStep',
          'LogSolutionAfterIteration']
 CCS = ['EstimateEmbeddedError', 'EstimateExtrapolationErrorNonMPI', 'EstimateContractionFactor', 'StoreUOld',
        'EstimatePolynomialError', 'Adaptivity']
+KDEP_QI = ['MIN-SR-FLEX', 'MIN-SR-FLEX', 'FB', 'FB2']      # qmat generators with isKDependent()
 DTS = [0.1, 0.05, 0.125, 0.2, 0.03, 0.07, 1.0 / 3.0, 0.011]
 T0S = [0.0, 0.0, 0.3, 1.0, 0.7, 2.5, 0.1]
 
@@ -132,6 +133,17 @@ def gen_config(rng, fixed_step=True, allow_random=True, family=None):
             c['ccs'].append('StoreUOld')
         elif r < 0.55 and c['levels'] == 1:
             c['ccs'].append('EstimateContractionFactor')
+    # several sweeps per iteration on the fine level (single level only: the coarsest level must have one) and
+    # sweep-dependent preconditioners (the sweepers' QI tables are rewritten by updateVariableCoeffs before every sweep)
+    c['nsweeps'] = 1
+    if c['levels'] == 1 and c['sweeper'] in ('generic_implicit', 'imex') and rng.random() < 0.4:
+        c['nsweeps'] = rng.choice([2, 3])
+        if c['sweeper'] == 'generic_implicit' and rng.random() < 0.6:
+            needs_gs = bool(set(c['ccs']) & {'EstimateExtrapolationErrorNonMPI', 'Adaptivity'})
+            if c['P'] == 1 or not needs_gs:
+                c['QI'] = rng.choice(KDEP_QI)
+                if c['P'] > 1:
+                    c['mssdc_jac'] = True   # the Gauss-Seidel variant has a finding of its own (c19.py: kdep_gs), probed separately
     c['fixed_step'] = 'Adaptivity' not in c['ccs']
     return c
 
@@ -173,7 +185,7 @@ def build_description(c):
         sc = _import('pySDC.implementations.sweeper_classes.Runge_Kutta', sw[3:])
         sp = {}
     d = {'problem_class': pc, 'problem_params': pp, 'sweeper_class': sc, 'sweeper_params': sp,
-         'level_params': {'dt': c['dt'], 'restol': c['restol']}, 'step_params': {'maxiter': c['maxiter']}}
+         'level_params': {'dt': c['dt'], 'restol': c['restol'], 'nsweeps': c.get('nsweeps', 1)}, 'step_params': {'maxiter': c['maxiter']}}
     if c['levels'] == 2:
         if prob == 'test':
             d['space_transfer_class'] = _import('pySDC.implementations.transfer_classes.TransferMesh_NoCoarse', 'mesh_to_mesh')
@@ -504,6 +516,20 @@ def reseed(ctrl):
                 L.sweep.rng = np.random.RandomState(L.sweep.params.random_seed)
 
 
+def repair_qi(ctrl):
+    """What run() does NOT do: put the sweepers' QI tables back to what the constructor computed."""
+    for S in ctrl.MS:
+        for L in S.levels:
+            sw = L.sweep
+            if hasattr(sw, 'genQI') and sw.genQI.isKDependent():
+                sw.QI = sw.get_Qdelta_implicit(sw.params.QI)
+
+
+def qi_tables(ctrl):
+    """Bytes of the fine-level QI table of every step (sweeper state that survives a run)."""
+    return [arr_hex(getattr(S.levels[0].sweep, 'QI', None)) for S in ctrl.MS]
+
+
 def cc_reset(ctrl):
     """What run() does NOT do: re-initialise the storage of the extrapolation error estimator."""
     for C in ctrl.convergence_controllers:
@@ -589,9 +615,10 @@ def scenario_case(sc):
     poison(A, rng)
     out['same_poisoned'] = strip(do_run(A, u0, t0, Tend, want_snap=True))
     # diagnosis runs: undo by hand the two pieces of state run() is known not to re-initialise
-    if c['guess'] == 'random' or 'EstimateExtrapolationErrorNonMPI' in c['ccs']:
+    if c['guess'] == 'random' or 'EstimateExtrapolationErrorNonMPI' in c['ccs'] or (c.get('QI') in KDEP_QI and c.get('nsweeps', 1) > 1):
         reseed(A)
         cc_reset(A)
+        repair_qi(A)
         out['same_repaired'] = strip(do_run(A, u0, t0, Tend))
     # re-entrant: a different run in between (other interval / other initial value), then the original again
     blocks = blocks_of(base['steps'], c['P'])
